@@ -205,9 +205,9 @@ def bigintCmd (E : Env) (t : List String) : String :=
   | "pow" => ctor (arg 1) fun x => optBig (pow cap T x (parseNat (arg 2))) ++ s!" | S {nat x * 5 ^ parseNat (arg 2)}"
   | "bpow" => ctor (arg 1) fun x =>
       optBig (bigintPow cap T x (parseNat (arg 2)) (parseNat (arg 3))) ++ s!" | S {nat x * (parseNat (arg 2)) ^ parseNat (arg 3)}"
-  | "shl" => ctor (arg 1) fun x => optBig (shl cap x (parseNat (arg 2))) ++ s!" | S {nat x * 2 ^ parseNat (arg 2)}"
-  | "shl_bits" => ctor (arg 1) fun x => optBig (shlBits cap x (parseNat (arg 2))) ++ s!" | S {nat x * 2 ^ parseNat (arg 2)}"
-  | "shl_limbs" => ctor (arg 1) fun x => optBig (shlLimbs cap x (parseNat (arg 2))) ++ s!" | S {nat x * B ^ parseNat (arg 2)}"
+  | "shl" => ctor (arg 1) fun x => optBig (shl cap x (parseNat (arg 2))) ++ (if parseNat (arg 2) ≤ 70000 then s!" | S {nat x * 2 ^ parseNat (arg 2)}" else "")
+  | "shl_bits" => ctor (arg 1) fun x => optBig (shlBits cap x (parseNat (arg 2))) ++ (if parseNat (arg 2) ≤ 70000 then s!" | S {nat x * 2 ^ parseNat (arg 2)}" else "")
+  | "shl_limbs" => ctor (arg 1) fun x => optBig (shlLimbs cap x (parseNat (arg 2))) ++ (if parseNat (arg 2) ≤ 1000 then s!" | S {nat x * B ^ parseNat (arg 2)}" else "")
   | "compare" =>
       let x := parseLimbs (arg 1); let y := parseLimbs (arg 2)
       ordStr (bigCompare x y) ++
@@ -444,9 +444,9 @@ def bigintCmdW (w : Nat) (E : Env) (t : List String) : String :=
   | "pow" => ctor (arg 1) fun x => optBig (W.pow w cap T x (parseNat (arg 2))) ++ s!" | S {nat x * 5 ^ parseNat (arg 2)}"
   | "bpow" => ctor (arg 1) fun x =>
       optBig (W.bigintPow w cap T x (parseNat (arg 2)) (parseNat (arg 3))) ++ s!" | S {nat x * (parseNat (arg 2)) ^ parseNat (arg 3)}"
-  | "shl" => ctor (arg 1) fun x => optBig (W.shl w cap x (parseNat (arg 2))) ++ s!" | S {nat x * 2 ^ parseNat (arg 2)}"
-  | "shl_bits" => ctor (arg 1) fun x => optBig (W.shlBits w cap x (parseNat (arg 2))) ++ s!" | S {nat x * 2 ^ parseNat (arg 2)}"
-  | "shl_limbs" => ctor (arg 1) fun x => optBig (shlLimbs cap x (parseNat (arg 2))) ++ s!" | S {nat x * Bw ^ parseNat (arg 2)}"
+  | "shl" => ctor (arg 1) fun x => optBig (W.shl w cap x (parseNat (arg 2))) ++ (if parseNat (arg 2) ≤ 70000 then s!" | S {nat x * 2 ^ parseNat (arg 2)}" else "")
+  | "shl_bits" => ctor (arg 1) fun x => optBig (W.shlBits w cap x (parseNat (arg 2))) ++ (if parseNat (arg 2) ≤ 70000 then s!" | S {nat x * 2 ^ parseNat (arg 2)}" else "")
+  | "shl_limbs" => ctor (arg 1) fun x => optBig (shlLimbs cap x (parseNat (arg 2))) ++ (if parseNat (arg 2) ≤ 1000 then s!" | S {nat x * Bw ^ parseNat (arg 2)}" else "")
   | "compare" =>
       let x := parseLimbs (arg 1); let y := parseLimbs (arg 2)
       ordStr (bigCompare x y) ++
